@@ -8,7 +8,7 @@
  *       computed from the grid, so a completed-but-unloaded point would reappear as a candidate and be computed twice.
  * Callee contracts (assumed here, F16 is proved in candman.next): next(b) returns at most b points.       */
 //@ text
-size_t g_stored, g_loaded, g_ncand, g_ndone, g_free, g_batch;
+size_t g_stored, g_loaded, g_ncand, g_ndone, g_free, g_batch, g_running;
 size_t g_done_before, g_computed, g_max;
 void gh_load_complete(void){ g_loaded += g_stored; g_stored = 0; }
 void gh_new_candidates(void){
@@ -19,14 +19,14 @@ void gh_new_candidates(void){
 size_t gh_next(size_t budget){                           /* F16 */
   size_t n = nondet_size_t();
   __CPROVER_assume(n <= budget && n <= g_batch && n <= g_free);
-  g_free -= n; return n;
+  g_free -= n; g_running += n; return n;
 }
 void gh_model(size_t x){
   g_computed += x;
   __CPROVER_assert(g_done_before + g_computed <= g_max, "B2 the model is never asked for more samples than the budget allows (samples recovered from a checkpoint included)");
 }
 void gh_complete_add(size_t x){ g_stored += x; }
-void gh_manager_complete(size_t x){ g_ndone += x; }
+void gh_manager_complete(size_t x){ g_ndone += x; if (g_running >= x) g_running -= x; else g_running = 0; }
 void gh_checkpoint(void){ }
 //@ loop sequential_loop 0
 __CPROVER_assigns(x, total_num_launched, g_stored, g_loaded, g_ncand, g_ndone, g_free, g_computed)
@@ -45,5 +45,49 @@ void h_budget(void){
   sequential_loop();
   __CPROVER_assert(g_done_before + g_computed <= g_max, "B2 on return no more than max_num_points samples exist in total");
   __CPROVER_assert(g_stored == 0, "B2 on return every computed sample has been loaded into the grid");
+  __CPROVER_assert(0, "VACUITY-CANARY");
+}
+
+//@ text2
+/* G5, parallel half (main thread only).  Workers: job slots 0..TSG_NJ-1 with a batch x[id] (number of points) and a flag; a worker whose flag is
+ * `computing` evaluates the model on its batch and raises `done`.  gh_wait_done() stands for `until_someone_done.wait(...)`: at least one computing
+ * worker (any subset, any order) finishes.  If none is computing while the main thread waits, the wait would never return: an assertion. */
+#ifndef TSG_NJ
+#define TSG_NJ 2
+#endif
+enum { flag_done = 0, flag_computing = 1, flag_shutdown = 2 };
+static size_t x[TSG_NJ]; static int work_flag[TSG_NJ]; static int count_done; static size_t num_parallel_jobs;
+bool g_spawned[TSG_NJ]; bool g_modelled[TSG_NJ];
+void gh_spawn(size_t id){ __CPROVER_assert(id < TSG_NJ && !g_spawned[id] && work_flag[id] == flag_computing && x[id] > 0, "G5p a worker thread is started once, with a non-empty batch and the computing flag"); g_spawned[id] = true; }
+void gh_wait_done(void){
+  bool any = false;
+  for (size_t id = 0; id < TSG_NJ; id++) if (id < num_parallel_jobs && work_flag[id] == flag_computing && g_spawned[id]) {
+    bool last_chance = !any && (id + 1 >= num_parallel_jobs || nondet_bool());
+    if (nondet_bool() || last_chance) { gh_model(x[id]); work_flag[id] = flag_done; count_done++; any = true; }
+  }
+  if (!any) for (size_t id = 0; id < TSG_NJ; id++) if (id < num_parallel_jobs && work_flag[id] == flag_computing && g_spawned[id] && !any) { gh_model(x[id]); work_flag[id] = flag_done; count_done++; any = true; }
+  __CPROVER_assert(any, "G5p when the main thread waits for a finished sample some worker is still computing (the wait returns)");
+}
+void gh_notify_workers(void){ }
+bool tsg_ratio_gt(size_t a, size_t b){ return nondet_bool(); }      /* R13: heuristic thresholds, any outcome */
+void gh_join_all(void){
+  for (size_t id = 0; id < TSG_NJ; id++) if (id < num_parallel_jobs && g_spawned[id])
+    __CPROVER_assert(work_flag[id] == flag_shutdown, "G5p every worker thread has been told to shut down before it is joined (join returns)");
+}
+
+//@ harness h_budget_parallel
+void h_budget_parallel(void){
+  g_stored = nondet_size_t(); g_loaded = nondet_size_t(); g_batch = nondet_size_t(); max_num_points = nondet_size_t(); num_dimensions = nondet_size_t(); num_parallel_jobs = nondet_size_t();
+  __CPROVER_assume(g_stored < 100000 && g_loaded < 100000 && g_batch >= 1 && g_batch < 1000 && max_num_points < 1000000 && num_dimensions >= 1 && num_parallel_jobs >= 1 && num_parallel_jobs <= TSG_NJ);
+  g_max = max_num_points; g_done_before = g_stored + g_loaded; g_computed = 0; g_running = 0;
+  g_ncand = 0; g_free = 0; g_ndone = 0; count_done = 0;
+  for (size_t id = 0; id < TSG_NJ; id++) { x[id] = 0; work_flag[id] = nondet_int(); g_spawned[id] = false; }
+  init_launched();
+  __CPROVER_assume(total_num_launched <= max_num_points && max_num_points - total_num_launched <= TSG_BUDGET);     /* bounded harness: at most TSG_BUDGET new samples */
+  refresh_candidates();
+  parallel_branch();
+  __CPROVER_assert(g_done_before + g_computed <= g_max, "B2 on return no more than max_num_points samples exist in total");
+  __CPROVER_assert(g_stored == 0, "B2 (parallel) on return every computed sample has been loaded into the grid: the completed jobs are flushed after the last worker finished");
+  __CPROVER_assert(g_running == 0, "G5p on return no sample is still marked as running");
   __CPROVER_assert(0, "VACUITY-CANARY");
 }
